@@ -546,6 +546,10 @@ func (nfs *Nfs) doRemove(dfh nfstypes.Nfs_fh3, name nfstypes.Filename3, isdir bo
 	if isdir && !dir.IsDirEmpty(inodes[0], op) {
 		return op, nfstypes.NFS3ERR_INVAL
 	}
+	if !isdir && inodes[0].Kind == nfstypes.NF3DIR {
+		// REMOVE does not apply to directories (their entries would be orphaned)
+		return op, nfstypes.NFS3ERR_ISDIR
+	}
 	ok := dir.RemName(inodes[1], op, name)
 	if !ok {
 		util.DPrintf(0, "Remove failed\n")
